@@ -209,6 +209,22 @@ impl Gantry {
 }
 
 
+#[cfg(rs_opw_verif)]
+impl LinearAxis {
+    /// Verification-only constructor (fields are private and there is no public constructor).
+    pub fn verif_new(robot: Arc<dyn Kinematics>, axis: u32, base: Isometry3<f64>) -> Self {
+        LinearAxis { robot, axis, base }
+    }
+}
+
+#[cfg(rs_opw_verif)]
+impl Gantry {
+    /// Verification-only constructor (fields are private and there is no public constructor).
+    pub fn verif_new(robot: Arc<dyn Kinematics>, base: Isometry3<f64>) -> Self {
+        Gantry { robot, base }
+    }
+}
+
 #[cfg(test)]
 mod tests {
     use std::f64::consts::PI;
